@@ -681,4 +681,165 @@ def sysHandle (s : Nat) : MsgKind → SysBody → Verdict Nat
   | .finderResult, .fail => .reset
   | _, _ => .carryOn s
 
+/-! ## Below the syncer: how the answers to the finder's and the hash fetcher's requests are made
+
+Serving side: chain/chainhandle.go `findAncestor`, p2p/subproto/block.go `handleGetAncestorReq`.
+Requesting side: p2p/ancestorreceiver.go, p2p/hashbynoreceiver.go, p2p/hashreceiver.go (`ReceiveResp`), and
+syncer/finder.go `hasSameHash` on top of the hash-by-no answer. Block ids are tokens as everywhere in this
+file; the token `0` is the nil hash. -/
+
+/-- `ResultStatus` of a p2p response, as far as the code below distinguishes it. -/
+inductive WStatus
+  | ok
+  | notFound      -- NOT_FOUND: the peer looked and has nothing to name
+  | failed        -- ABORTED, INTERNAL, RESOURCE_EXHAUSTED, ...: the peer could not look
+deriving DecidableEq, Repr
+
+/-- `ChainService.findAncestor(hashes)` of the serving node. `store h` is the height of the block the
+node stores under id `h` (on any branch), `main n` the id of its main-chain block at height `n`: the first
+listed id whose block is stored and is the main-chain block at its height. -/
+def findAncestor (store : Nat → Option Nat) (main : Nat → Option Nat) : List Nat → Option (Nat × Nat)
+  | [] => none
+  | h :: hs =>
+    match store h with
+    | none => findAncestor store main hs
+    | some n => if main n = some h then some (h, n) else findAncestor store main hs
+
+/-- `handleGetAncestorReq`: status, id and height of the `GetAncestorResponse`. `answered`: the node's own
+chain service replied to its P2P module within the actor time limit (otherwise ABORTED). -/
+def serveAncestor (answered : Bool) (found : Option (Nat × Nat)) : WStatus × Nat × Nat :=
+  if !answered then (.failed, 0, 0)
+  else
+    match found with
+    | none => (.notFound, 0, 0)
+    | some (h, n) => (.ok, h, n)
+
+/-- `AncestorReceiver.ReceiveResp`: what the syncer is told. `none`: nothing (the receiver's time limit had
+elapsed); `some none`: `GetSyncAncestorRsp{Ancestor: nil}`; `some (some (h, n))`: the peer's `BlockInfo`. -/
+def ancRecv (timedOut : Bool) (st : WStatus) (h n : Nat) : Option (Option (Nat × Nat)) :=
+  if timedOut then none
+  else
+    match st with
+    | .ok => some (some (h, n))
+    | _ => some none
+
+/-- What `BlockHashByNoReceiver.ReceiveResp` tells the syncer. -/
+inductive HbnOut
+  | nothing            -- time limit elapsed: no message
+  | hash (h : Nat)     -- GetHashByNoRsp{BlockHash}
+  | err                -- GetHashByNoRsp{Err: RemotePeerFailError}
+deriving DecidableEq, Repr
+
+def hbnRecv (timedOut : Bool) (st : WStatus) (h : Nat) : HbnOut :=
+  if timedOut then .nothing
+  else
+    match st with
+    | .ok => .hash h
+    | _ => .err
+
+/-- `binarySearch`'s local lookup followed by `hasSameHash` on the answer: no message before the finder's own
+timer is a remote error; a nil hash without error counts as "different". -/
+def probeOf (localHash : Option Nat) (o : HbnOut) : Probe :=
+  match localHash with
+  | none => .localErr
+  | some lh =>
+    match o with
+    | .nothing => .remoteErr
+    | .err => .remoteErr
+    | .hash h => if h = 0 then .diff else if h = lh then .same else .diff
+
+/-- Acceptance rule of `getAncestor` on the `BlockInfo` itself: only the height is looked at. -/
+def lightAcceptId (lastAnchor : Nat) (r : Option (Nat × Nat)) : Bool :=
+  match r with
+  | none => true
+  | some (_, n) => decide (lastAnchor ≤ n)
+
+inductive FinderOutId
+  | ancestor (hash no : Nat)     -- FinderResult{Ancestor: &BlockInfo{Hash, No}}
+  | noAncestor
+  | alreadyDone
+  | timeout
+  | localErr
+  | remoteErr
+deriving DecidableEq, Repr
+
+/-- The finder with the ids it hands on. The light scan passes the peer's `BlockInfo` on as it is (the hash
+is not compared with the local chain; `handleFinderResult` then looks the block up by that hash). The full
+scan hands on the LOCAL id at the height found (`lastMatch = {midHash, mid}`); `localMain n` is the local
+main-chain id at height `n`. -/
+def finderId (fullOnly : Bool) (best target : Nat) (localMain : Nat → Option Nat)
+    (replies : List (Option (Nat × Nat))) (probe : Nat → Probe) : FinderOutId :=
+  let full (la : Nat) : FinderOutId :=
+    match fullscan probe la with
+    | .ancestor a =>
+      match localMain a with
+      | some h => .ancestor h a
+      | none => .localErr
+    | .noAncestor => .noAncestor
+    | .alreadyDone => .alreadyDone
+    | .timeout => .timeout
+    | .localErr => .localErr
+    | .remoteErr => .remoteErr
+  if fullOnly then full (best + 1)
+  else
+    match replies.find? (lightAcceptId (lastAnchorOf best)) with
+    | none => .timeout
+    | some (some (h, n)) => if target ≤ n then .alreadyDone else .ancestor h n
+    | some none => full (lastAnchorOf best)
+
+/-! ### p2p/hashreceiver.go `BlockHashesReceiver` -/
+
+structure HRecv where
+  reqCnt : Nat
+  got : List Nat
+  status : RStatus
+deriving DecidableEq, Repr
+
+inductive HRecvErr | remotePeerFail | missingHash | wrongHash | tooMany
+deriving DecidableEq, Repr
+
+inductive HRecvOut
+  | nothing
+  | rsp (hashes : List Nat) (count : Nat)    -- GetHashesRsp{Hashes, PrevInfo (echo of the request), Count: len(got)}
+  | rspErr (e : HRecvErr)                    -- GetHashesRsp{PrevInfo, Err}
+deriving DecidableEq, Repr
+
+/-- One partial `GetHashesResponse`; a hash is its token and whether it has the length of a block id. -/
+structure HPart where
+  timedOut : Bool
+  statusOk : Bool
+  hashes : List (Nat × Bool)
+  hasNext : Bool
+deriving DecidableEq, Repr
+
+/-- The "add to got" loop of `handleInWaiting`. -/
+def hrecvAdd (reqCnt : Nat) : List Nat → List (Nat × Bool) → List Nat × Option HRecvErr
+  | got, [] => (got, none)
+  | got, (h, lenOk) :: r =>
+    if !lenOk then (got, some .wrongHash)
+    else if got.length ≥ reqCnt then (got, some .tooMany)
+    else hrecvAdd reqCnt (got ++ [h]) r
+
+def HRecv.receive (r : HRecv) (p : HPart) : HRecv × HRecvOut :=
+  match r.status with
+  | .canceled => (r, .nothing)
+  | .finished => (r, .nothing)
+  | .waiting =>
+    if p.timedOut then ({ r with status := .finished }, .nothing)
+    else if !p.statusOk then ({ r with status := .finished }, .rspErr .remotePeerFail)
+    else if p.hashes.isEmpty then ({ r with status := .finished }, .rspErr .missingHash)
+    else
+      match hrecvAdd r.reqCnt r.got p.hashes with
+      | (got, some e) => ({ r with got, status := if p.hasNext then .canceled else .finished }, .rspErr e)
+      | (got, none) =>
+        if p.hasNext then ({ r with got }, .nothing)
+        else ({ r with got, status := .finished }, .rsp got got.length)
+
+def HRecv.feed : HRecv → List HPart → HRecv × List HRecvOut
+  | r, [] => (r, [])
+  | r, p :: ps =>
+    let (r1, o) := r.receive p
+    let (r2, os) := HRecv.feed r1 ps
+    (r2, o :: os)
+
 end Aergo.Sync
